@@ -353,6 +353,22 @@ theorem extendPol_chain (fuel : Nat) (hf : 64 ≤ fuel) (hp : Heap) (self : NTT_
     fun b hb hk => by rw [h4 b hk, hold b hb], ⟨k2, k3, k4, k5, k6⟩,
     k7.mono (fun _ h => h) (by rw [hs4.2, hs3.2]) (by rw [hs4.2, hs3.2]), k8, k9⟩
 
+/-- `computeR` overwrites `r`, `r_` before it uses them: the in-bounds condition does not depend on their values at the call
+    (the source may or may not reset them to NULL after `delete[]`) -/
+theorem computeR_Safe_irrel (fuel : Nat) (X : Heap) (self : NTT_Goldilocks) (a b : Ptr) (N : Int) :
+    NTT_computeR.Safe fuel X { self with r := a, r_ := b } N = NTT_computeR.Safe fuel X self N := by
+  unfold NTT_computeR.Safe
+  rfl
+
+/-- evaluates the cache refresh of `extendPol` — its text in the goal (HOWEVER the source writes it) and the canonical text of
+    `extendPol_chain` in `h` — in the four cases `r == NULL` × `r_N == N`, where the two coincide, and closes the goal with `h` -/
+macro "refresh_cases " h:ident " : " self:term ", " n:term : tactic => `(tactic| (
+  cases hr0 : (($self).r == Ptr.null) <;> cases hn0 : (($self).r_N == $n) <;>
+    simp only [hr0, hn0, bne, Bool.not_true, Bool.not_false, Bool.true_or, Bool.false_or, Bool.or_true, Bool.or_false,
+      Bool.true_and, Bool.false_and, Bool.and_true, Bool.and_false, if_true, if_false, Bool.false_eq_true, true_implies,
+      false_implies, true_and, and_true, and_assoc, beq_self_eq_true, computeR_irrel, computeR_Safe_irrel] at $h:ident ⊢ <;>
+    exact $h))
+
 /-- **in-bounds accesses of `extendPol`** — every `nblock`, with or without caller buffer, in place or not, every state
     of the cache, sizes 1 ≤ N ≤ N_Extended ≤ 2^30 -/
 theorem extendPol_safe (fuel : Nat) (hf : 64 ≤ fuel) (hp : Heap) (self : NTT_Goldilocks) (output input buffer : Ptr)
@@ -361,24 +377,28 @@ theorem extendPol_safe (fuel : Nat) (hf : 64 ≤ fuel) (hp : Heap) (self : NTT_G
   unfold NTT_extendPol.Safe
   zeta_goal
   refine ⟨ctor_safe _ _ _ _ _ _, fun y1 hy1 => ?_⟩
-  refine extendPol_chain fuel hf hp self output input buffer N NE NC dn de nphase nblock sh
+  have hch := extendPol_chain fuel hf hp self output input buffer N NE NC dn de nphase nblock sh
     (fun ext tmp _ y4 => ((buffer == Ptr.null) = true → y4.FreeOK tmp) ∧
-      NTT_dtor.Safe (if (buffer == Ptr.null) = true then y4.free tmp else y4) ext) ?_ y1 hy1 _ rfl
-  intro ext tmp y y4 F
-  obtain ⟨t3, t4, es0, er, er_, toff, htA, hlive, _, _, _, _, _⟩ := F
-  refine ⟨fun hb => Or.inr ⟨(toff hb).1, hlive _ (Or.inr (Or.inl rfl))⟩, ?_⟩
-  have h5 : ∀ b, b ≠ tmp.blk → (if (buffer == Ptr.null) = true then y4.free tmp else y4).ext b = y4.ext b := by
-    intro b hb
-    by_cases hbn : (buffer == Ptr.null) = true
-    · rw [if_pos hbn, ext_free_ne _ _ _ hb]
-    · rw [if_neg hbn]
-  refine dtor_safe _ ext ⟨fun _ => ?_, fun h => absurd er h, fun h => absurd er_ h⟩
-  rw [t3, t4]
-  refine ⟨rfl, ?_, rfl, ?_, by show hp.size ≠ hp.size + 1; omega⟩
-  · show 0 < Heap.ext _ hp.size
-    rw [h5 _ (fun x => htA.1 x.symm)]; exact hlive _ (Or.inr (Or.inr (Or.inl rfl)))
-  · show 0 < Heap.ext _ (hp.size + 1)
-    rw [h5 _ (fun x => htA.2 x.symm)]; exact hlive _ (Or.inr (Or.inr (Or.inr rfl)))
+      NTT_dtor.Safe (if (buffer == Ptr.null) = true then y4.free tmp else y4) ext) ?hQ y1 hy1 _ rfl
+  case hQ =>
+    intro ext tmp y y4 F
+    obtain ⟨t3, t4, es0, er, er_, toff, htA, hlive, _, _, _, _, _⟩ := F
+    refine ⟨fun hb => Or.inr ⟨(toff hb).1, hlive _ (Or.inr (Or.inl rfl))⟩, ?_⟩
+    have h5 : ∀ b, b ≠ tmp.blk → (if (buffer == Ptr.null) = true then y4.free tmp else y4).ext b = y4.ext b := by
+      intro b hb
+      by_cases hbn : (buffer == Ptr.null) = true
+      · rw [if_pos hbn, ext_free_ne _ _ _ hb]
+      · rw [if_neg hbn]
+    refine dtor_safe _ ext ⟨fun _ => ?_, fun h => absurd er h, fun h => absurd er_ h⟩
+    rw [t3, t4]
+    refine ⟨rfl, ?_, rfl, ?_, by show hp.size ≠ hp.size + 1; omega⟩
+    · show 0 < Heap.ext _ hp.size
+      rw [h5 _ (fun x => htA.1 x.symm)]; exact hlive _ (Or.inr (Or.inr (Or.inl rfl)))
+    · show 0 < Heap.ext _ (hp.size + 1)
+      rw [h5 _ (fun x => htA.2 x.symm)]; exact hlive _ (Or.inr (Or.inr (Or.inr rfl)))
+  -- the cache refresh, HOWEVER the source writes it: in the four cases `r == NULL` × `r_N == N` its in-bounds condition and its
+  -- value are those of the canonical text `extendPol_chain` is stated for
+  refresh_cases hch : self, bv N
 
 /-! ### the state after `extendPol` -/
 
@@ -453,10 +473,16 @@ theorem extendPol_post (fuel : Nat) (hf : 64 ≤ fuel) (hp : Heap) (self : NTT_G
       have n3 := f (hp.size + 1) (Or.inr (Or.inr (Or.inr rfl)))
       exact hcache.mono (fun b hb => Or.inl hb) (hfin _ n2.1 n3.1 (fun _ => n1.1)) (hfin _ n2.2 n3.2 (fun _ => n1.2))
   refine OInv.bind_eq _ _ (fun y hy => ?_)
+  -- the value of the cache refresh, HOWEVER the source writes it, is the value of the canonical text of `extendPol_chain`
+  have hy' : (if (self.r == Ptr.null || self.r_N != bv N) = true then
+        (NTT_computeR fuel (if (self.r != Ptr.null) = true then (d.2.free self.r).free self.r_ else d.2) self
+          (I32.ofU64 (bv N))).bind fun rt_3 => some (rt_3.1, rt_3.2)
+      else some (d.2, self)) = some y := by
+    refresh_cases hy : self, bv N
   heap_steps
   refine OInv.bind_eq _ _ (fun y3 hy3 => ?_)
   heap_steps
   refine OInv.bind_eq _ _ (fun y4 hy4 => ?_)
-  exact OInv.some _ _ (((hch.2 y hy).2 y3 hy3).2 y4 hy4)
+  exact OInv.some _ _ (((hch.2 y hy').2 y3 hy3).2 y4 hy4)
 
 end GoldilocksVerif.HeapSafe
